@@ -189,12 +189,18 @@ func RunC14(ch *core.Chooser, env *Env) *Outcome {
 		out.Sample["trace"] = renderTrace(res.Trace, 400)
 	}
 
-	if res.SpecBlocked || res.SpecSkipped {
+	if res.FreeRunDeadlock {
+		out.Violation = &Violation{Class: "deadlock", Detail: fmt.Sprintf("after %d scheduled steps a task blocked in a lock held by a parked task; the scheduler then let every task run freely (a real, uncontrolled execution) and all unfinished tasks ended up blocked on locks for ever", res.Steps)}
+		return out
+	}
+	if res.SpecBlocked || res.SpecSkipped || res.UnhookedBlock {
 		out.Skipped = true
-		out.Violation = nil
-		if res.SpecBlocked {
+		switch {
+		case res.UnhookedBlock:
+			out.Probes["released_task_blocked_on_a_lock_without_scheduling_point_run_abandoned"]++
+		case res.SpecBlocked:
 			out.Probes["speculative_release_blocked_run_abandoned"]++
-		} else {
+		default:
 			out.Probes["speculative_run_not_executed_in_this_mode"]++
 		}
 		return out
